@@ -5,12 +5,12 @@ import json, os, re
 HERE = os.path.dirname(os.path.abspath(__file__))
 LEAN = os.path.join(os.path.dirname(HERE), "lean")
 NOT_YET = {
-    "C01": ["the hand-unrolled sqlite3 chained reader is modelled by its format-level reader (agreement with the C is sampled by the correspondence, not proved)"],
-    "C04": ["uniqueness-in-length-class / shortest-encoding stated on the decoder for chained, chained-simple and the split families (tagged has tagged_canonical); Elias gamma/delta bit definitions (carried with the Elias model under C02)"],
-    "C02": ["BP128 (4 forms) round trips and the FOR block reader: model = code on the correspondence stream and the monitors check the implementation, theorem not yet written (delta, zigzag, FOR + random access, RLE ± header + random access, group + random access, dictionary, Elias gamma/delta, PFOR at every threshold ARE proved)"],
-    "C03": ["BP128, adaptive, float bounds: monitors + correspondence only so far (delta, RLE, FOR, group, dictionary, Elias, PFOR are proved)"],
-    "C13": ["BP128, PFOR (takes no capacity), adaptive capacity theorems: monitors + correspondence only so far (FOR, RLE ± header, group, dictionary DecodeInto and both Elias decoders are proved)"],
-    "C16": ["Elias, BP128, adaptive, float metadata: monitors + correspondence only so far (FOR, RLE, group, PFOR are proved)"],
+    "C01": ["the hand-unrolled sqlite3 chained reader is modelled by its format-level reader (agreement with the C is sampled by the correspondence, not proved); chained/chained-simple/split/external bodies are tied by the correspondence only (the tagged family is tied by the translator + bridge theorems for all inputs)"],
+    "C04": ["Elias gamma/delta bit definitions are carried with the Elias model under C02/C03 (code lengths proved there)"],
+    "C02": ["the FOR block reader: model = code on the correspondence stream and the monitors check the implementation, theorem not yet written (every codec round trip IS proved: delta, zigzag, FOR + random access, RLE ± header + random access, group + random access, dictionary, Elias gamma/delta, PFOR at every threshold, BP128 all four forms)"],
+    "C03": ["adaptive bound (the arms' bounds are proved, the combination is not): monitors + correspondence only so far"],
+    "C13": ["PFOR takes no capacity (its decoder trusts the stored count: covered by C14-style monitors only); adaptive capacity theorem: monitors + correspondence only so far"],
+    "C16": ["Elias, BP128, adaptive, float metadata structs: monitors + correspondence only so far (FOR, RLE, group, PFOR are proved)"],
     "C05": [],
     "C11": [],
     "C17": ["that the compiled codecs access nothing outside their arguments (the theorem's premise) and race freedom under the real "
@@ -20,13 +20,12 @@ NOT_YET = {
     "C18": ["crash- and leak-freedom (facts about the binary: observed by the sweep, not theorems); the stateless codecs are "
             "carried only as request-count tables tied by the correspondence (abortAll_spec), their value-level result under "
             "refusal is 'failure or the undisturbed result' by observation; (or/and/xor/andNot are now exact: *_exact)"],
-    "C14": ["termination is by construction (the models are total functions whose loops are bounded by explicit fuel = input size); "
-            "that the fuel of runCountAux suffices is tied by the correspondence, not proved"],
+    "C14": ["termination is by construction (total functions with explicit fuel) and the fuel of every loop is PROVED adequate for arbitrary bytes (rle_runcount_fuel_adequate, elias_gamma_fuel_adequate, rle_fuel_adequate, bp128_fuel_adequate, search_fuel_adequate)"],
     "C06": ["losslessness of the PFOR, DICT and BITMAP arms (their codecs have no round-trip theorem yet) and hence the unconditional adaptive_roundtrip"],
-    "C07": ["array-level framing round trip (decode (encode ds) = map roundTripOne ds) is not a theorem: encode bytes are compared with the model and the decoded values are checked on the implementation"],
+    "C07": [],
     "C10": ["half-float cells not covered (F16C-only code)"],
-    "C08": ["add-range fast path (single run on an empty set), clone and serialise/deserialise as theorems; that iteration is ascending and duplicate free (membership of `members` IS proved, and the four set operations are); the three containers are abstracted to one bit set in the model (their equivalence with the C is sampled by the histories)"],
-    "C09": ["sorted insert / positional insert / delete / delete-member as refinement of a reference multiset (the shifting loops): checked by the harness against a reference array and by the correspondence, theorem not yet written; get/set isolation, lower-bound search, incr/half are proved"],
+    "C08": ["clone is the identity in the model (the C's deep copy is compared by the histories); the three containers are abstracted to one bit set in the model (their equivalence with the C is sampled by the histories)"],
+    "C09": [],
     "C12": [],
 }
 out = {}
